@@ -77,6 +77,12 @@ pub struct Seen {
     pub parameters: Option<serde_json::Value>,
 }
 
+impl Seen {
+    pub fn iter_name(&self) -> String {
+        self.iface.to_string()
+    }
+}
+
 /// Hand-written interface that records every call and answers `{"who": <name>}`.
 pub struct Recording {
     pub name: &'static str,
